@@ -573,3 +573,142 @@ def r9_10(rep):
                 rep.bad(key, "the edge targets a computed id (%s): items between the stored id and that result are never reached, although "
                         "codegen spells the stored id" % ", ".join(c[5:].split("::")[-1] for c in computed), e.body.loc(e.node))
     rep.need(n >= 22, "edge emissions in Trace impls")
+
+
+@RULES.rule("R9.11", "which edges a Trace impl emits does not depend on generation options", floor=22)
+def r9_11(rep):
+    """Trace describes what an item refers to; which references matter for code generation is decided afterwards, per edge kind, by
+    `codegen_edges` (R9.6).  An edge left out in Trace because of an option is missing for EVERY consumer — also for the ones that
+    spell the target anyway: skipping pure virtual methods "because no function is generated for them" lost the parameter types that
+    `Vtable::codegen` writes into `Foo__bindgen_vtable` (seeded change; E0425 under --vtable-generation with an allowlist).
+    Per visit / visit_kind site in an `impl Trace`: no condition on its path reads the options."""
+    prog = rep.prog
+    import qq
+    n = 0
+    for p, b in sorted(prog.bodies.items()):
+        if not (b.fact.get("impl_trait") or "").endswith("traversal::Trace"):
+            continue
+        who = (b.fact.get("impl_self") or "").split("::")[-1]
+        per = {}
+        for c in b.calls(lambda x: x["k"] == "MCall" and x["name"] in ("visit", "visit_kind")):
+            n += 1
+            edge = b.canon(c["args"][-1], 2).split("::")[-1] if c["name"] == "visit_kind" else "visit"
+            k = per.get(edge, 0)
+            per[edge] = k + 1
+            key = "option-free-edge:%s::%s%s" % (who, edge, "#%d" % k if k else "")
+            bad = []
+            for pol, kind, g in b.guards(c, nested=True):
+                srcs = []
+                if kind == "cond":
+                    srcs.append(b.canon(g, 10))
+                    for x in b.walk(g):
+                        if x["k"] == "Local" and b.local_init(x["id"]) is not None:
+                            srcs.append(b.canon(b.local_init(x["id"]), 10))
+                elif kind == "arm":
+                    srcs.append(b.canon(g[0]["scrut"], 10))
+                if any("BindgenContext::options" in s_ or "BindgenOptions::" in s_ for s_ in srcs):
+                    bad.append((srcs[0][:120], g if kind == "cond" else g[0]))
+            rep.check(not bad, key, "emitted whatever the options are" if not bad else
+                      "this edge is only emitted when `%s` allows it: a consumer that spells the target anyway (vtable, layout, derive "
+                      "analyses) no longer sees it" % bad[0][0], b.loc(bad[0][1] if bad else c))
+    rep.need(n >= 22, "visit / visit_kind sites in Trace impls")
+
+
+SWITCH_OF_METHOD_EDGES = ("CodegenConfig::methods", "CodegenConfig::constructors", "CodegenConfig::destructors")
+
+
+@RULES.rule("R9.12", "codegen spells a method's signature only where the edges to methods were followed", floor=2)
+def r9_12(rep):
+    """`codegen_edges` follows Method / Constructor / Destructor edges iff the matching `codegen_config` switch is on (R9.6); only
+    then are the parameter and return types of a method part of the closure.  Every place in codegen that resolves
+    `Method::signature()` to write those types must therefore run under one of these switches (in its own guards, or at every one of
+    its call sites)."""
+    import c08
+    prog = rep.prog
+    idx = c08.call_index(prog)
+
+    def mentions(b, node):
+        for pol, kind, g in b.guards(node, nested=True):
+            if kind == "cond" and pol:
+                s = b.canon(g, 10)
+                if any(w in s for w in SWITCH_OF_METHOD_EDGES):
+                    return True
+        return False
+    n = 0
+    for p, b in sorted(prog.bodies.items()):
+        if "codegen" not in p.split("::")[0] and not p.startswith("<codegen"):
+            continue
+        sites = b.calls(lambda x: x["k"] == "MCall" and (x.get("callee") or x.get("resolved") or "").endswith("comp::Method::signature"))
+        if not sites:
+            continue
+        who = (b.fact.get("impl_self") or "").split("::")[-1]
+        who = re.sub(r"<.*", "", who)
+        fn = (who + "::" if who else "") + p.split("::")[-1]
+        for c in sites:
+            n += 1
+            ok = mentions(b, c)
+            how = "guarded at the site"
+            if not ok:
+                callers = list(idx.get(b.path, []))
+                ti = b.fact.get("trait_item")
+                if ti:
+                    callers += [x for x in idx.get(ti, []) if x not in callers]
+                ok = bool(callers) and all(mentions(kb, kc) for kb, kc in callers) and not b.fact.get("trait_item")
+                how = "every one of its %d call sites is under the switch" % len(callers)
+            rep.check(ok, "method-signature-spelled-under-switch@" + fn, how if ok else
+                      "the method's parameter / return types are written here although the edges to methods are only followed under "
+                      "`codegen_config.methods()`: with `--ignore-methods` (or `--generate types`) and an allowlist the types named by the "
+                      "emitted signature are not part of the bindings", b.loc(c))
+    rep.need(n >= 2, "codegen sites that resolve Method::signature()")
+
+
+@RULES.rule("R9.13", "the blocklist verdict is computed for each item from the pattern set of its own kind", floor=12)
+def r9_13(rep):
+    """`struct stat` and `stat()` share the name `stat`; `--blocklist-function stat` must hide the function and only the function.
+    `Item::is_blocklisted` therefore dispatches on the item's kind.  The per-kind `matches` calls must be evaluated for the item that
+    is asked about: wrapped into a closure handed to a crate-local function they can be cached under a key that forgets the kind (a
+    seeded change memoised the verdict by name; the first item of a name then decided for all kinds)."""
+    prog = rep.prog
+    b = rep.need(prog.fn("ir::item::Item::is_blocklisted"), "Item::is_blocklisted")
+    want = {"Type": "blocklisted_types", "Function": "blocklisted_functions", "Var": "blocklisted_vars"}
+    matches = [c for c in b.calls(lambda n: n["k"] == "MCall" and n["name"] == "matches" and "RegexSet" in (n.get("callee") or ""))]
+    rep.need(len(matches) >= 5, "RegexSet::matches calls in Item::is_blocklisted")
+
+    def set_of(c):
+        r = strip(c["recv"])
+        return r["f"] if r.get("k") == "Field" and r.get("adt") == OPTS else None
+
+    def item_kinds(c):
+        ks = None
+        for pol, kind, payload in b.guards(c):
+            if kind == "arm":
+                m, i = payload
+                sc = b.canon(m["scrut"], 4)
+                vs = {v[len(ITEMKIND):] for v in pat_variants(m["arms"][i]["pat"]) if v.startswith(ITEMKIND)}
+                if vs and "param:self" in sc:
+                    ks = vs if ks is None else ks & vs
+        return ks
+    seen = {}
+    for c in matches:
+        seen.setdefault(set_of(c), []).append((item_kinds(c), c))
+    for kind, field in want.items():
+        sites = seen.get(field, [])
+        rep.check(any(ks == {kind} for ks, _ in sites), "blocklist:%s" % kind,
+                  "%s items are matched against `%s` (found under kinds %s)" % (kind, field, [ks for ks, _ in sites]), b.loc(b.root))
+        wrong = [ks for ks, _ in sites if ks != {kind}]
+        rep.check(not wrong, "blocklist-only:%s" % field, "`%s` is consulted for %s items only (found %s)" % (field, kind, wrong), b.loc(b.root))
+    rep.check(any(ks is None for ks, _ in seen.get("blocklisted_items", [])), "blocklist:any-item",
+              "`blocklisted_items` is matched for every kind", b.loc(b.root))
+    for c in matches:
+        clo = [a for a in b.ancestors(c) if a["k"] == "Closure"]
+        bad = None
+        for cl in clo:
+            p = b.parent[cl["_i"]]
+            while p is not None and p["k"] not in ("Call", "MCall"):
+                p = b.parent[p["_i"]]
+            cal = (p.get("resolved") or p.get("callee") or "") if p is not None else ""
+            if not cal.startswith(("std::", "core::", "alloc::")):
+                bad = cal or "?"
+        rep.check(bad is None, "verdict-per-item:%s" % set_of(c), "evaluated for the item itself" if bad is None else
+                  "the match against `%s` is wrapped in a closure given to `%s`: whether and for which item it runs is decided there "
+                  "(a cache keyed by name alone merges a type and a function of the same name)" % (set_of(c), bad), b.loc(c))
